@@ -1046,7 +1046,20 @@ where
                                     }
                                 }
 
+                                // An earlier Parse of this batch that needs the primary decides
+                                // for the whole batch: a plain read parsed later must not move
+                                // the batch, write included, to a replica.
+                                let primary_needed_earlier = query_router.role() == Some(crate::config::Role::Primary)
+                                    && self
+                                        .extended_protocol_data_buffer
+                                        .iter()
+                                        .any(|data| matches!(data, ExtendedProtocolData::Parse { .. }));
+
                                 let _ = query_router.infer(&ast);
+
+                                if primary_needed_earlier {
+                                    query_router.pin_primary();
+                                }
                             }
                             Err(error) => {
                                 warn!(
